@@ -68,9 +68,25 @@ def zlist(xs):
 
 
 def prove(mod, ctx):
+    """all properties files of the module (PROPERTIES_FILE + EXTRA_PROPERTIES_FILES): results merged"""
+    files = [mod.PROPERTIES_FILE] + list(getattr(mod, "EXTRA_PROPERTIES_FILES", []))
+    tot = None
+    for i, pf in enumerate(files):
+        r = prove_file(mod, ctx, pf, build_deps=(i == 0))
+        if tot is None:
+            tot = r
+        else:
+            for k in ("obligations", "discharged"):
+                tot[k] += r[k]
+            for k in ("theorems", "assumptions_printed", "errors"):
+                tot[k] += r[k]
+            tot["ok"] = tot["ok"] and r["ok"]
+    return tot
+
+
+def prove_file(mod, ctx, pf, build_deps=True):
     """returns dict(ok, obligations, discharged, theorems, assumptions_printed, errors)"""
     res = {"ok": False, "obligations": 0, "discharged": 0, "theorems": [], "assumptions_printed": [], "errors": []}
-    pf = mod.PROPERTIES_FILE  # e.g. Properties/Properties_C12.v
     d = common.coq_dir()
     thms = [t for t in common.theorems_in(os.path.join(d, pf))]
     res["theorems"] = thms
@@ -78,7 +94,7 @@ def prove(mod, ctx):
     forb = common.forbidden_scan(pf)
     if forb:
         res["errors"].append("forbidden construct in development: " + "; ".join(forb[:10]))
-    deps = list(getattr(mod, "COQ_DEPS", []))
+    deps = list(getattr(mod, "COQ_DEPS", [])) if build_deps else []
     ok, out = common.coq_make(deps, timeout=getattr(mod, "COQ_TIMEOUT", 1500)) if deps else (True, "")
     if not ok:
         errs = re.findall(r'File "([^"]+)", line (\d+)[^\n]*\n(Error:.*?)(?=\n\n|\nmake|\nCommand exited|\Z)', out, flags=re.S)
